@@ -15,6 +15,11 @@ Handlers for the Krylov solvers GMRES / FGMRES / LGMRES / IDR(s) / BiCGStab(L) (
     hist_gmres | hist_fgmres | hist_lgmres | hist_bicgstabl   <params as above>  n k (A PREC f x0)^k
     hist_idrs        <params as above>  n k RAW (A PREC f x0)^k
 
+    dblhist_gmres | dblhist_fgmres | dblhist_lgmres | dblhist_idrs | dblhist_bicgstabl  <params> n k (A PREC f x0)^k
+                     a labelled double-precision TEST executed by the harness only (history through overflowing calls on
+                     one real object vs fresh objects, compared bitwise); the model validates the shape of the line and
+                     answers the constant `ok`
+
 `RAW` = the `s` random vectors (each `n v₁ … vₙ`) the constructor of `idrs` draws before it orthonormalises them
 into the shadow space `P` (`IDRs.makeP`); they are an input of the model.
 
@@ -70,6 +75,11 @@ def histOp {α W} (pp : P α) (okp : α → Bool) (step : α → W → Call → 
   withArgs (pHist pp) args
     fun (p, n, cs) => if okp p then histOut (step p) (fresh p n) n cs else badInput
 
+/-- the double-precision history test: only the shape of the line is validated here -/
+def dblOp {α} (pp : P α) (okp : α → Bool) (args : List String) : Option String :=
+  withArgs (pHist pp) args
+    fun (p, n, cs) => if okp p && cs.all (fun c => c.ok && c.A.nrows == n) then "ok" else badInput
+
 def handle (op : String) (args : List String) : Option String :=
   match op with
   | "solve_gmres" => solveOp pGMRESPrm (fun p => decide (1 ≤ p.M)) gmresStep (fun _ n => GMRES.Work.fresh n) args
@@ -95,6 +105,11 @@ def handle (op : String) (args : List String) : Option String :=
         if decide (1 ≤ p.s) && raw.all (fun v => v.size == n) then
           histOut (idrsStep p raw) (IDRs.Work.fresh n) n cs
         else badInput
+  | "dblhist_gmres" => dblOp pGMRESPrm (fun p => decide (1 ≤ p.M)) args
+  | "dblhist_fgmres" => dblOp pFGMRESPrm (fun p => decide (1 ≤ p.M)) args
+  | "dblhist_lgmres" => dblOp pLGMRESPrm (fun p => decide (1 ≤ p.M)) args
+  | "dblhist_idrs" => dblOp pIDRsPrm (fun p => decide (1 ≤ p.s)) args
+  | "dblhist_bicgstabl" => dblOp pBiCGStabLPrm (fun p => decide (1 ≤ p.L)) args
   | _ => none
 
 end Amgcl.Driver.Solvers2
